@@ -1,12 +1,22 @@
 /-
 C18 — Users and routes survive edits, reloads and crashes intact.
-Property theorems only; helper lemmas live in IpcHub/Lemmas/Tables.lean, Lemmas/Fs.lean.
+Property theorems only; helper lemmas live in IpcHub/Lemmas/Tables.lean, Lemmas/TableInst.lean,
+Lemmas/Fs.lean, Lemmas/PathCanon.lean.  Models: Model/Tables.lean (manager / routetable: map,
+list, saves, removes, Flush guard, Reset), Model/UserTable.lean, Model/Route.lean (init, CopyFrom),
+Model/Fs.lean (file system with process crashes and power loss); specification: Spec/Table.lean,
+Spec/UserEntry.lean.
 -/
-import IpcHub.Model.TablesInst
-import IpcHub.Spec.UserEntry
+import IpcHub.Lemmas.TableInst
+import IpcHub.Lemmas.Fs
+import IpcHub.Lemmas.PathCanon
 namespace IpcHub.Props.C18
+open IpcHub.Tables IpcHub.TableSpec IpcHub.UserTable IpcHub.Route IpcHub.EntrySpecs IpcHub.Fs
 
-/-- The source facts the theorems rest on, regenerated from /repo on every run. -/
+/-- The source facts the theorems rest on, regenerated from /repo on every run: both Flush
+    methods hand the full list to the provider and clear the change lists, both JSON providers
+    write that list with EncodeJSONFile, the literal returned for a missing file, the lock taken
+    by every method of both tables, and the file-system program of EncodeJSONFile, whose
+    essential part is: open/truncate the *temporary* file, write, fsync, rename over the target. -/
 theorem c18_source_facts :
     IpcHub.Gen.tableFactsUnknown = [] ∧
     IpcHub.Gen.managerFlushPassesFull = true ∧ IpcHub.Gen.routetableFlushPassesFull = true ∧
@@ -14,7 +24,138 @@ theorem c18_source_facts :
     IpcHub.Gen.userJsonMissingFile = "[]*User{{Name:\"admin\",Password:\"admin\",Admin:true}}" ∧
     IpcHub.Gen.routeJsonMissingFile = "nil" ∧
     IpcHub.Gen.managerLocks = ["Reset:Lock", "Get:RLock", "Del:Lock", "Save:Lock", "Flush:Lock", "All:RLock"] ∧
-    IpcHub.Gen.routetableLocks = ["Reset:Lock", "Get:RLock", "Del:Lock", "Save:Lock", "Flush:Lock", "All:RLock", "Match:RLock"] := by
+    IpcHub.Gen.routetableLocks = ["Reset:Lock", "Get:RLock", "Del:Lock", "Save:Lock", "Flush:Lock", "All:RLock", "Match:RLock"] ∧
+    Fs.genProg.map essential = some atomicProg := by
+  decide
+
+/-- USERS.  For EVERY history of save(update_password?) / delete / flush / restart, of any
+    length, over any names, from a first start without a file: the list the manager holds equals
+    the abstract table of the specification (update keeps the password unless asked, names
+    lower-cased, an administrator's empty right becomes "*", delete then re-create leaves one
+    entry, order = first insertion); `Get` agrees with the abstract lookup; the representation
+    invariant holds (map keys distinct, every entry filed under its own name, list = map); and a
+    restart at this point would load exactly what the specification says is persisted.
+    `guarded` is the regenerated fact "Flush returns early when nothing is pending". -/
+theorem c18_users_refine (lower : Char → Char) (hl : ∀ c, lower (lower c) = lower c) (ops : List (Op User)) :
+    let sv := Server.run (userOps lower) IpcHub.Gen.managerFlushGuard defaultUsers (Server.boot (userOps lower) defaultUsers .missing).1 ops
+    let a := Abs.run (userSpec lower) defaultUsers (Abs.fresh (userSpec lower) defaultUsers) ops
+    all sv.st = a.cur ∧ (∀ name, get (userOps lower) sv.st name = specGet (userSpec lower) a.cur name) ∧
+    WF (userOps lower) sv.st ∧
+    restartView (userOps lower) defaultUsers sv.disk = specLoad (userSpec lower) defaultUsers a.disk := by
+  have h := userHyps lower hl
+  have hs := sim_run _ _ _ _ IpcHub.Gen.managerFlushGuard h ops _ _ (sim_fresh _ _ _ _ h)
+  refine ⟨hs.cur, ?_, hs.good.wf, hs.view⟩
+  intro name
+  rw [← hs.cur]; exact get_spec _ _ _ h.refines _ name hs.good
+
+/-- ROUTES, generic form: the same for the route table (patterns canonicalised, a route whose URL
+    does not parse is rejected, update keeps the pattern), for any configuration whose
+    CanonicalPath is idempotent. -/
+theorem c18_routes_refine_generic (cfg : Route.Cfg) (hidem : ∀ p, canon cfg (canon cfg p) = canon cfg p)
+    (guarded : Bool) (ops : List (Op Route)) :
+    let sv := Server.run (routeOps cfg) guarded defaultRoutes (Server.boot (routeOps cfg) defaultRoutes .missing).1 ops
+    let a := Abs.run (routeSpec cfg) defaultRoutes (Abs.fresh (routeSpec cfg) defaultRoutes) ops
+    all sv.st = a.cur ∧ (∀ name, get (routeOps cfg) sv.st name = specGet (routeSpec cfg) a.cur name) ∧
+    WF (routeOps cfg) sv.st ∧
+    restartView (routeOps cfg) defaultRoutes sv.disk = specLoad (routeSpec cfg) defaultRoutes a.disk := by
+  have h := routeHyps cfg hidem
+  have hs := sim_run _ _ _ _ guarded h ops _ _ (sim_fresh _ _ _ _ h)
+  refine ⟨hs.cur, ?_, hs.good.wf, hs.view⟩
+  intro name
+  rw [← hs.cur]; exact get_spec _ _ _ h.refines _ name hs.good
+
+/-- After a flush a restarted server loads exactly the table it had: for every history `ops`,
+    appending `flush; restart` leaves the table unchanged (users). -/
+theorem c18_users_reload (lower : Char → Char) (hl : ∀ c, lower (lower c) = lower c) (ops : List (Op User)) :
+    let boot := (Server.boot (userOps lower) defaultUsers .missing).1
+    all (Server.run (userOps lower) IpcHub.Gen.managerFlushGuard defaultUsers boot (ops ++ [.flush, .restart])).st =
+    all (Server.run (userOps lower) IpcHub.Gen.managerFlushGuard defaultUsers boot ops).st := by
+  have h1 := (c18_users_refine lower hl (ops ++ [.flush, .restart])).1
+  have h2 := (c18_users_refine lower hl ops).1
+  simp only at h1 h2 ⊢
+  rw [h1, h2, abs_run_append]
+  simp [Abs.run, Abs.step, specLoad]
+
+/-- … and the same for routes. -/
+theorem c18_routes_reload_generic (cfg : Route.Cfg) (hidem : ∀ p, canon cfg (canon cfg p) = canon cfg p)
+    (guarded : Bool) (ops : List (Op Route)) :
+    let boot := (Server.boot (routeOps cfg) defaultRoutes .missing).1
+    all (Server.run (routeOps cfg) guarded defaultRoutes boot (ops ++ [.flush, .restart])).st =
+    all (Server.run (routeOps cfg) guarded defaultRoutes boot ops).st := by
+  have h1 := (c18_routes_refine_generic cfg hidem guarded (ops ++ [.flush, .restart])).1
+  have h2 := (c18_routes_refine_generic cfg hidem guarded ops).1
+  simp only at h1 h2 ⊢
+  rw [h1, h2, abs_run_append]
+  simp [Abs.run, Abs.step, specLoad]
+
+/-- A flush is never skipped while changes are pending: in every reachable state, whenever both
+    change lists are empty (the only case in which `Flush` returns early), a restart would load
+    exactly the current table; and the table file is never unreadable, so `Reset` never panics
+    and never falls back to the default administrator once a table was flushed. -/
+theorem c18_users_flush_skipped_only_when_persisted (lower : Char → Char) (hl : ∀ c, lower (lower c) = lower c)
+    (ops : List (Op User)) :
+    let sv := Server.run (userOps lower) IpcHub.Gen.managerFlushGuard defaultUsers (Server.boot (userOps lower) defaultUsers .missing).1 ops
+    (sv.st.saves = [] → sv.st.removes = [] → restartView (userOps lower) defaultUsers sv.disk = all sv.st) ∧
+    (Server.boot (userOps lower) defaultUsers sv.disk).2 = true := by
+  have h := userHyps lower hl
+  have hs := sim_run _ _ _ _ IpcHub.Gen.managerFlushGuard h ops _ _ (sim_fresh _ _ _ _ h)
+  exact ⟨hs.clean, (boot_ok _ _ _ _ h _ hs.disk_ok).1⟩
+
+theorem c18_routes_flush_skipped_only_when_persisted_generic (cfg : Route.Cfg)
+    (hidem : ∀ p, canon cfg (canon cfg p) = canon cfg p) (guarded : Bool) (ops : List (Op Route)) :
+    let sv := Server.run (routeOps cfg) guarded defaultRoutes (Server.boot (routeOps cfg) defaultRoutes .missing).1 ops
+    (sv.st.saves = [] → sv.st.removes = [] → restartView (routeOps cfg) defaultRoutes sv.disk = all sv.st) ∧
+    (Server.boot (routeOps cfg) defaultRoutes sv.disk).2 = true := by
+  have h := routeHyps cfg hidem
+  have hs := sim_run _ _ _ _ guarded h ops _ _ (sim_fresh _ _ _ _ h)
+  exact ⟨hs.clean, (boot_ok _ _ _ _ h _ hs.disk_ok).1⟩
+
+/-- Crash atomicity of a flush, for the regenerated program of utils.EncodeJSONFile: for EVERY
+    previous content `old` of the table file (or none), every leftover temporary file, every new
+    content, EVERY crash point `k` (between any two operations) and every number of bytes a
+    write in progress had put out — after a process crash the file is the complete previous or
+    the complete new content, and so is every content a power loss may leave.  Never empty,
+    truncated or mixed; never missing if it existed. -/
+theorem c18_crash_atomic (prog : List FsOp) (hp : Fs.genProg = some prog)
+    (old stale : Option Bytes) (new : Bytes) (k : Nat) (part : Option Nat) :
+    let fs := crashState new (Fs.initWithStaleTemp old stale) prog k part
+    (processOutcome fs = old ∨ processOutcome fs = some new) ∧
+    ∀ c, PowerLossOutcome fs c → (c = old ∨ c = some new) := by
+  have he : essential prog = atomicProg := by
+    have := c18_source_facts.2.2.2.2.2.2.2.2.2
+    rw [hp] at this; simpa using this
+  obtain ⟨k', part', h⟩ := crashState_essential new prog (Fs.initWithStaleTemp old stale) k part
+  simp only
+  rw [h, he]
+  exact atomicProg_crash old stale new k' part'
+
+/-- … and a flush that runs to completion leaves the new content. -/
+theorem c18_flush_completes (prog : List FsOp) (hp : Fs.genProg = some prog)
+    (old stale : Option Bytes) (new : Bytes) :
+    processOutcome (runN new (Fs.initWithStaleTemp old stale) prog prog.length) = some new := by
+  have he : essential prog = atomicProg := by
+    have := c18_source_facts.2.2.2.2.2.2.2.2.2
+    rw [hp] at this; simpa using this
+  rw [runN_essential, he]
+  exact atomicProg_done old stale new
+
+/-- non-vacuity: the regenerated program parses -/
+example : ∃ prog, Fs.genProg = some prog := by
+  cases h : Fs.genProg with
+  | none => exact absurd h (by decide)
+  | some p => exact ⟨p, rfl⟩
+
+/-- Why the program matters: the pinned EncodeJSONFile (open the *target* with O_TRUNC, marshal,
+    write, fsync) is not atomic.  A process dying right after the open leaves an empty file, one
+    dying with 3 bytes written a truncated one (replayed on the implementation:
+    corpus/C18/flush-crash.case). -/
+theorem c18_truncate_in_place_counterexample :
+    let pinned : List FsOp := [.openTrunc .target, .hook "opened", .marshal, .hook "before-write", .write .target,
+                               .hook "written", .sync .target, .hook "synced"]
+    let old : Bytes := [91, 49, 93]          -- "[1]"
+    let new : Bytes := [91, 49, 44, 50, 93]  -- "[1,2]"
+    processOutcome (crashState new (Fs.init (some old)) pinned 2 none) = some [] ∧
+    processOutcome (crashState new (Fs.init (some old)) pinned 4 (some 3)) = some [91, 49, 44] := by
   decide
 
 end IpcHub.Props.C18
